@@ -100,7 +100,7 @@ class _SyncCache[**Args, Result]:
         self._function: Callable[Args, Result] = function
         self._cached: OrderedDict[Hashable, _CacheEntry[Result]] = OrderedDict()
         self._limit: int = limit
-        if expiration := expiration:
+        if expiration is not None:
 
             def next_expire_time() -> float | None:
                 return monotonic() + expiration
@@ -150,7 +150,7 @@ class _SyncCache[**Args, Result]:
                 pass
 
             case entry:
-                if (expire := entry[1]) and expire < monotonic():
+                if (expire := entry[1]) is not None and expire < monotonic():
                     # if still running let it complete if able
                     del self._cached[key]  # continue the same way as if empty
 
@@ -188,7 +188,7 @@ class _SyncCache[**Args, Result]:
                 pass
 
             case entry:
-                if (expire := entry[1]) and expire < monotonic():
+                if (expire := entry[1]) is not None and expire < monotonic():
                     # if still running let it complete if able
                     del self._cached[key]  # continue the same way as if empty
 
@@ -219,7 +219,7 @@ class _AsyncCache[**Args, Result]:
         self._function: Callable[Args, Coroutine[None, None, Result]] = function
         self._cached: OrderedDict[Hashable, _CacheEntry[Task[Result]]] = OrderedDict()
         self._limit: int = limit
-        if expiration := expiration:
+        if expiration is not None:
 
             def next_expire_time() -> float | None:
                 return monotonic() + expiration
@@ -273,7 +273,7 @@ class _AsyncCache[**Args, Result]:
                 pass
 
             case entry:
-                if (expire := entry[1]) and expire < monotonic():
+                if (expire := entry[1]) is not None and expire < monotonic():
                     # if still running let it complete if able
                     del self._cached[key]  # continue the same way as if empty
 
@@ -311,7 +311,7 @@ class _AsyncCache[**Args, Result]:
                 pass
 
             case entry:
-                if (expire := entry[1]) and expire < monotonic():
+                if (expire := entry[1]) is not None and expire < monotonic():
                     # if still running let it complete if able
                     del self._cached[key]  # continue the same way as if empty
 
